@@ -13,8 +13,8 @@ demo_cmd=$(python3 -c "import json;print(json.load(open('$M/meta.json')).get('de
 [ -d "$demo_dir" ] || demo_dir=.
 if git apply --check $M/patch.diff 2>/dev/null; then git apply $M/patch.diff
 elif git apply --3way $M/patch.diff >/dev/null 2>&1 && ! grep -rl '^<<<<<<<' --include=*.go . >/dev/null; then git reset -q; echo "  (applied with 3-way merge)"
-elif git checkout -q -- . && patch -p1 --fuzz=3 -s < $M/patch.diff >/dev/null 2>&1; then echo "  (applied with fuzz)"; find . -name '*.orig' -delete
-else git checkout -q -- .; echo "$M patch-does-not-apply"; exit 1; fi
+elif git reset -q --hard HEAD && patch -p1 --fuzz=3 -s < $M/patch.diff >/dev/null 2>&1; then echo "  (applied with fuzz)"; find . -name '*.orig' -delete
+else git reset -q --hard HEAD; echo "$M patch-does-not-apply"; exit 1; fi
 if go build ./... >/dev/null 2>&1 && go test -vet=off -count=1 ./... >/tmp/wt/suite-$$.log 2>&1; then suite=ok; else suite=FAIL; fi
 cp $M/demo_test.go $demo_dir/zz_demo_test.go 2>/dev/null
 runs=$(grep -o 'func Test[A-Za-z0-9_]*' $demo_dir/zz_demo_test.go | sed 's/func //' | paste -sd'|')
